@@ -5,47 +5,8 @@
    Both for every flag record and every environment (no bound, no "accepted" hypothesis beyond what is stated). *)
 From Coq Require Import Lia.
 From RM Require Import C20.Model C20.Proofs.
+From RM Require Export C20.Known.
 Open Scope Z_scope.
-
-Definition io_ok (r : io_res) : bool := match r with IoOk => true | _ => false end.
-Definition io_err (r : io_res) : bool := match r with IoErr => true | _ => false end.
-Definition creates_ok (e : env) (ps : list path) : bool := forallb (fun p => io_ok (e_create e p)) ps.
-
-(* ------------------------------------------------------------------ F-C20b *)
-(* the run ends in one of main.rs's three `error!(..); std::process::exit(1)` tails *)
-Definition ends_by_logger (f : flags) (e : env) : bool :=
-  match decide f with
-  | Rejected UsageConflict => false
-  | HelpMarkdown => false
-  | Rejected _ => creates_ok e (opt_list (f_log_file f))
-  | Plan p => creates_ok e (opt_list (f_log_file f)) &&
-              (negb (e_read e) || (creates_ok e (p_creates p) && p_process p && negb (e_process e)))
-  end.
-Definition known_b (f : flags) (e : env) : bool := f_verbose_off f && ends_by_logger f e.
-
-(* ------------------------------------------------------------------ F-C20d *)
-(* the first failing printer call is an io error (not a broken pipe) and report bytes are on the primary output by then:
-   (B) the one report of the primary output fails after a prefix was streamed, or
-   (A) it was written completely and the --cyborg file's JSON then fails *)
-Definition known_d (f : flags) (e : env) : bool :=
-  match decide f with
-  | Plan p =>
-      creates_ok e (opt_list (f_log_file f)) && e_read e && creates_ok e (p_creates p) &&
-      (negb (p_process p) || e_process e) &&
-      match p_primary p with
-      | [r] =>
-          match e_write e (p_writer p) r with
-          | IoErr => e_partial e (p_writer p) r
-          | IoBrokenPipe => false
-          | IoOk => match p_secondary p with
-                    | Some (c, rj) => io_err (e_write e (File c) rj)
-                    | None => false
-                    end
-          end
-      | _ => false
-      end
-  | _ => false
-  end.
 
 (* ------------------------------------------------------------------ boolean readings of the trace predicates *)
 Definition is_stderr_diag (ev : event) : bool := match ev with Diag Stderr => true | _ => false end.
